@@ -31,14 +31,34 @@ func (s *sess) asNobody(files []string, fn func()) bool {
 	}
 	dropped := false
 	if os.Geteuid() == 0 {
+		// (the scratch directories on the way stay searchable: several driver processes share the upper one, and
+		// taking the bits away again under a neighbour that has just dropped its uid would fail its command)
 		for _, d := range []string{s.root, filepath.Dir(s.root)} {
 			if st, err := os.Stat(d); err == nil && st.Mode().Perm()&0011 != 0011 {
-				if os.Chmod(d, st.Mode().Perm()|0011) == nil {
-					restore = append(restore, saved{d, st.Mode().Perm()})
-				}
+				os.Chmod(d, st.Mode().Perm()|0011)
 			}
 		}
 		dropped = syscall.Seteuid(65534) == nil
+		if dropped {
+			// the files must be within reach of that user (a scratch directory below a private one is not)
+			for _, p := range files {
+				if f, err := os.Open(p); err != nil {
+					if _, serr := os.Stat(filepath.Dir(p)); serr != nil {
+						must(syscall.Seteuid(0))
+						dropped = false
+						break
+					}
+				} else {
+					f.Close()
+				}
+			}
+		}
+	}
+	if !dropped {
+		for i := len(restore) - 1; i >= 0; i-- {
+			os.Chmod(restore[i].path, restore[i].mode)
+		}
+		return false
 	}
 	func() {
 		defer func() {
@@ -52,6 +72,15 @@ func (s *sess) asNobody(files []string, fn func()) bool {
 		fn()
 	}()
 	return dropped
+}
+
+// roSkip: " roskip=1" if the last ro= command could not be run as another user (see execute).
+func (s *sess) roSkip() string {
+	if v, _ := s.st["roskip"].(bool); v {
+		delete(s.st, "roskip")
+		return " roskip=1"
+	}
+	return ""
 }
 
 // roFiles: the files named by the option ro=REL[,REL] (relative to the case directory).
